@@ -1,4 +1,5 @@
 CONSTANTS NReq = 3  NConn = 1  Shapes <- ShapesTriple  Pools = {1, 2}  HTs = {TRUE}
   TimerAfterDecode = TRUE  KF_BlankTimeoutReply = FALSE  KF_PacketTypeSetLate = FALSE  KF_TupDropsResult = FALSE
+  Filts = {"none"}  VG_PingThroughFilter = FALSE
 SPECIFICATION Spec
 INVARIANTS AtMostOnce NoStrayReply SafeSoFar AtQuiescence ExecutedAtMostOnce
